@@ -542,6 +542,71 @@ def check_c15(tier, seed):
                         if (gt.TRACK_GRAPH, lm.MEM_GUARD) != (True, init_guard):
                             b.fail("C15.bounded.not_restored", desc, f"settings after the outermost scope: {(gt.TRACK_GRAPH, lm.MEM_GUARD)}")
                         b.case(desc)
+    # tree-shaped scope programs: the same manager entered again as a SIBLING at the same depth under another ambient setting, with
+    # ordinary statements (in-place updates enter mem_guard_off internally) in the bodies.  Spec: a stack of settings.
+    def trees(n):
+        """all forests of n nodes as nested lists (well-parenthesised sequences)"""
+        if n == 0:
+            yield []
+            return
+        for k in range(n):  # first tree has k nodes below its root
+            for kids in trees(k):
+                for rest in trees(n - 1 - k):
+                    yield [kids] + rest
+
+    def label(forest, names, i=0):
+        out = []
+        for kids in forest:
+            nm = names[i]
+            i += 1
+            sub, i = label(kids, names, i)
+            out.append((nm, sub))
+        return out, i
+
+    def run_forest(forest, stmt, log, raise_in=None, counter=None):
+        for (nm, kids) in forest:
+            before = (gt.TRACK_GRAPH, lm.MEM_GUARD)
+            counter[0] += 1
+            me = counter[0]
+            try:
+                with mgrs[nm]:
+                    log.append(("inside", nm, (gt.TRACK_GRAPH, lm.MEM_GUARD), expected_inside(nm, before)))
+                    if stmt and gt.TRACK_GRAPH:
+                        t = mg.tensor([1.0, 2.0, 3.0])
+                        t[:2] = -1.0  # an in-place update: enters and leaves mem_guard_off internally
+                        log.append(("after-inplace", nm, (gt.TRACK_GRAPH, lm.MEM_GUARD), expected_inside(nm, before)))
+                    run_forest(kids, stmt, log, raise_in, counter)
+                    log.append(("after-children", nm, (gt.TRACK_GRAPH, lm.MEM_GUARD), expected_inside(nm, before)))
+                    if raise_in == me:
+                        raise Boom()
+            finally:
+                log.append(("after", nm, (gt.TRACK_GRAPH, lm.MEM_GUARD), before))
+
+    maxn = 3 if tier == "quick" else 4
+    for init_guard in (True, False):
+        for n in range(2, maxn + 1):
+            for forest in trees(n):
+                if all(not kids for kids in forest) and len(forest) == n and n > 2:
+                    pass
+                for names in itertools.product(mgrs, repeat=n):
+                    lab, _ = label(forest, names)
+                    for stmt in (False, True):
+                        for raise_in in ([None] if tier == "quick" and n == maxn else [None, n]):
+                            (mg.turn_memory_guarding_on if init_guard else mg.turn_memory_guarding_off)()
+                            desc = dict(scope_tree=repr(lab), inplace_statements=stmt, exception_in_node=raise_in, initial_guard=init_guard)
+                            log = []
+                            b.count("scoped (tree-shaped)")
+                            try:
+                                run_forest(lab, stmt, log, raise_in, [0])
+                            except Boom:
+                                pass
+                            for (kind, nm, got, exp) in log:
+                                if got != exp:
+                                    b.fail(f"C15.bounded.tree.{kind}", dict(desc, manager=nm), f"(TRACK_GRAPH, MEM_GUARD) = {got}, expected {exp}")
+                                    break
+                            if (gt.TRACK_GRAPH, lm.MEM_GUARD) != (True, init_guard):
+                                b.fail("C15.bounded.not_restored", desc, f"settings after the outermost scope: {(gt.TRACK_GRAPH, lm.MEM_GUARD)}")
+                            b.case(desc)
     mg.turn_memory_guarding_on()
     # turn_memory_guarding_* inside a scope is undone by the scope's exit; outside it sets the default
     with mg.mem_guard_off:
